@@ -379,11 +379,23 @@ pub fn run_capacity(r: &mut Report, analyzer: &str, capacity: usize, extra: usiz
 /// without `init_pool` (which falls back to the sequential path) for any worker count -- must report the same number.
 fn run_capacity_routes(r: &mut Report) {
     let d = crate::drv::db_arc();
-    for cap in [1usize, 2, 8] {
+    // (the connections are opened by the client's SYN, or - capture started mid-handshake, asymmetric routing - the server's
+    // SYN+ACK is the first segment seen of each)
+    for (cap, opener) in [(1usize, "syn"), (2, "syn"), (8, "syn"), (1, "syn+ack"), (2, "syn+ack"), (8, "syn+ack")] {
         let n = cap * 4;
         let (sv_ip, sv_port) = (2u8, 80u16);
-        let mut trace: Vec<Vec<u8>> = (0..n).map(|c| pkt::build(&Spec { src: 1, sport: 41000 + c as u16, dst: sv_ip, dport: sv_port, flags: SYN, seq: 999, ..Spec::default() })).collect();
-        for c in 0..n {
+        let mut trace: Vec<Vec<u8>> = (0..n)
+            .map(|c| {
+                if opener == "syn" || c < cap {
+                    pkt::build(&Spec { src: 1, sport: 41000 + c as u16, dst: sv_ip, dport: sv_port, flags: SYN, seq: 999, ..Spec::default() })
+                } else {
+                    pkt::build(&Spec { src: sv_ip, sport: sv_port, dst: 1, dport: 41000 + c as u16, flags: SYN | ACK, seq: 4999, ack: 1000, ..Spec::default() })
+                }
+            })
+            .collect();
+        // (second variant: the first `cap` connections are opened by their SYN, the 3 x cap later ones by a SYN+ACK; only the
+        // first ones send their request - by then the table has been filled three times over, none of them may be known)
+        for c in 0..(if opener == "syn" { n } else { cap }) {
             let req = format!("GET /{c} HTTP/1.1\r\nHost: c{c}.example\r\nUser-Agent: agent\r\n\r\n").into_bytes();
             trace.push(pkt::build(&Spec { src: 1, sport: 41000 + c as u16, dst: sv_ip, dport: sv_port, flags: ACK | PSH, seq: 1000, ack: 1, payload: req, ..Spec::default() }));
         }
@@ -399,13 +411,13 @@ fn run_capacity_routes(r: &mut Report) {
         routes.push(("unified".into(), uni));
         for (name, res) in routes {
             r.exec(trace.len() as u64);
-            let ctx = || json!({"kind": "capacity-route", "route": name, "capacity": cap, "connections_open_at_once": n});
+            let ctx = || json!({"kind": "capacity-route", "route": name, "capacity": cap, "connections_open_at_once": n, "opened_by": opener});
             match res {
                 Err(p) => r.dev("C11/capacity-route/panic", "panic", || json!({"ctx": ctx(), "detail": p})),
                 Ok(Err(e)) => r.dev("C11/capacity-route/analysis-failed", "capacity", || json!({"ctx": ctx(), "detail": e})),
                 Ok(Ok(k)) => {
                     r.outcome(&("capacity-route", &name, cap, k));
-                    if k > cap {
+                    if k > cap || (opener != "syn" && k > 0) {
                         r.dev("C11/capacity-route/state-held-for-more-connections-than-the-capacity", "capacity", || json!({"ctx": ctx(), "connections_still_known_when_their_request_arrives": k}));
                     } else if Ok(k) != reference && name != "unified" {
                         r.dev("C11/capacity-route/routes-disagree", "capacity", || json!({"ctx": ctx(), "reported": k, "new_route_reported": format!("{reference:?}")}));
